@@ -102,10 +102,10 @@ impl Process for Limiter {
     closed spec fn header(&self, titles: Seq<String>) -> Seq<char> { self.next.header(titles) }
 
 //@@ fn limiter.complete = src/limits.rs :: impl Process for Limiter :: fn complete
-//@@ safety C08 C09 C03
+//@@ safety C08 C09 C03 C16 C20
 //@@ endfn
 //@@ fn limiter.process = src/limits.rs :: impl Process for Limiter :: fn process
-//@@ safety C08 C14 C03 C05
+//@@ safety C08 C14 C03 C05 C16 C20
 //@@ endfn
 //@@ fn limiter.start = src/limits.rs :: impl Process for Limiter :: fn start
 //@@ safety C03 C18 C15
@@ -137,14 +137,14 @@ impl Process for ActiveFilter {
     closed spec fn header(&self, titles: Seq<String>) -> Seq<char> { self.next.header(titles) }
 
 //@@ fn filter.complete = src/filter.rs :: impl Process for ActiveFilter :: fn complete
-//@@ safety C03 C16
+//@@ safety C03 C16 C20
 //@@ endfn
 //@@ fn filter.start = src/filter.rs :: impl Process for ActiveFilter :: fn start
 //@@ safety C03 C18 C15
 //@@ rewrite crate_paths
 //@@ endfn
 //@@ fn filter.process = src/filter.rs :: impl Process for ActiveFilter :: fn process
-//@@ safety C03 C14 C16 C11
+//@@ safety C03 C14 C16 C11 C20
 //@@ rewrite crate_paths
 //@@ endfn
 }
@@ -178,10 +178,10 @@ impl Process for SelectionProcess {
 //@@ safety C03 C18 C15
 //@@ endfn
 //@@ fn selection.complete = src/selection.rs :: impl Process for SelectionProcess :: fn complete
-//@@ safety C03 C16
+//@@ safety C03 C16 C20
 //@@ endfn
 //@@ fn selection.process = src/selection.rs :: impl Process for SelectionProcess :: fn process
-//@@ safety C03 C14 C16 C11 C12
+//@@ safety C03 C14 C16 C11 C12 C20
 //@@ endfn
 }
 
@@ -199,10 +199,10 @@ impl Process for PreSetProcessor {
     closed spec fn header(&self, titles: Seq<String>) -> Seq<char> { self.next.header(titles) }
 
 //@@ fn preset.complete = src/pre_sets.rs :: impl Process for PreSetProcessor :: fn complete
-//@@ safety C03 C16
+//@@ safety C03 C16 C20
 //@@ endfn
 //@@ fn preset.process = src/pre_sets.rs :: impl Process for PreSetProcessor :: fn process
-//@@ safety C03 C14 C16 C11 C12
+//@@ safety C03 C14 C16 C11 C12 C20
 //@@ endfn
 //@@ fn preset.start = src/pre_sets.rs :: impl Process for PreSetProcessor :: fn start
 //@@ safety C03 C18 C15
@@ -265,10 +265,10 @@ impl Process for SplitterProcess {
     closed spec fn header(&self, titles: Seq<String>) -> Seq<char> { self.next.header(titles) }
 
 //@@ fn splitter.complete = src/splitter.rs :: impl Process for SplitterProcess :: fn complete
-//@@ safety C03 C16
+//@@ safety C03 C16 C20
 //@@ endfn
 //@@ fn splitter.process = src/splitter.rs :: impl Process for SplitterProcess :: fn process
-//@@ safety C03 C14 C16 C11 C12 C05
+//@@ safety C03 C14 C16 C11 C12 C05 C20
 //@@ loop 1 iter it
                 invariant
                     self.next.inv(), self.split_by == old(self).split_by,
@@ -345,13 +345,13 @@ impl Process for Uniquness {
     closed spec fn header(&self, titles: Seq<String>) -> Seq<char> { self.next.header(titles) }
 
 //@@ fn uniq.complete = src/duplication_remover.rs :: impl Process for Uniquness :: fn complete
-//@@ safety C03 C16 C10
+//@@ safety C03 C16 C10 C20
 //@@ endfn
 //@@ fn uniq.start = src/duplication_remover.rs :: impl Process for Uniquness :: fn start
 //@@ safety C03 C18 C15
 //@@ endfn
 //@@ fn uniq.process = src/duplication_remover.rs :: impl Process for Uniquness :: fn process
-//@@ safety C03 C10 C14 C16
+//@@ safety C03 C10 C14 C16 C20
 //@@ before "Ok(ProcessDesision::Continue)"
             proof { assert(old(self).knwon_lines@.insert(ctx_key(context)) =~= old(self).knwon_lines@); }
 //@@ endfn
@@ -386,7 +386,7 @@ impl Process for Merger {
     closed spec fn header(&self, titles: Seq<String>) -> Seq<char> { self.next.header(Seq::empty()) }
 
 //@@ fn merger.complete = src/merger.rs :: impl Process for Merger :: fn complete
-//@@ safety C09 C03 C16
+//@@ safety C09 C03 C16 C20
 //@@ loop 1 iter it
             invariant
                 data@ =~= self.data@.subrange(0, it.index@), 0 <= it.index@ <= self.data@.len(),
@@ -452,7 +452,7 @@ impl Process for GrouperProcess {
     closed spec fn header(&self, titles: Seq<String>) -> Seq<char> { self.next.header(Seq::empty()) }
 
 //@@ fn grouper.complete = src/grouper.rs :: impl Process for GrouperProcess :: fn complete
-//@@ safety C09 C03 C16
+//@@ safety C09 C03 C16 C20
 //@@ loop 1 iter it
             invariant
                 0 <= it.index@ <= self.data.entries().len(), it.seq().len() == self.data.entries().len(),
@@ -553,7 +553,7 @@ impl Process for SortProcess {
 //@@ safety C03 C18 C15
 //@@ endfn
 //@@ fn sorter.complete = src/sorters.rs :: impl Process for SortProcess :: fn complete
-//@@ safety C07 C08 C03 C16
+//@@ safety C07 C08 C03 C16 C20
 //@@ body-start
         let ghost b0 = self.bk();
         proof {
